@@ -36,6 +36,10 @@ pub enum Scen {
     /// like `Swept`, but only the HTLC outputs and their second level are spent: the node's main
     /// output of the confirmed commitment is still unswept
     HtlcsSwept,
+    /// the confirmed commitment carries two parts of one offered payment (identical output
+    /// scripts); the main output, the first part, the received HTLC and their second level are
+    /// swept, the second part is not: the channel must never be discarded
+    TwoParts,
 }
 
 #[derive(Clone, Debug, Serialize, Deserialize)]
@@ -150,14 +154,14 @@ impl NodeModel {
         }
         match t {
             Tx::Fund => {
-                if spent(&f.wallet_in) || matches!(self.cfg.scen, Scen::Mutual | Scen::Unilateral | Scen::Swept | Scen::HtlcsSwept | Scen::Prunable) {
+                if spent(&f.wallet_in) || matches!(self.cfg.scen, Scen::Mutual | Scen::Unilateral | Scen::Swept | Scen::HtlcsSwept | Scen::TwoParts | Scen::Prunable) {
                     None
                 } else {
                     Some(f.funding_tx.clone())
                 }
             }
             Tx::DoubleSpend => {
-                if spent(&f.wallet_in) || matches!(self.cfg.scen, Scen::Mutual | Scen::Unilateral | Scen::Swept | Scen::HtlcsSwept | Scen::Prunable) {
+                if spent(&f.wallet_in) || matches!(self.cfg.scen, Scen::Mutual | Scen::Unilateral | Scen::Swept | Scen::HtlcsSwept | Scen::TwoParts | Scen::Prunable) {
                     None
                 } else {
                     Some(simple_tx(vec![f.wallet_in], vec![(CHANNEL_VALUE, unrelated_script(1))], 7))
@@ -165,7 +169,7 @@ impl NodeModel {
             }
             Tx::Mutual => {
                 let funded = get(Tx::Fund).is_some() || matches!(self.cfg.scen, Scen::Unilateral | Scen::Mutual | Scen::Swept | Scen::HtlcsSwept | Scen::Prunable);
-                if !funded || spent(&f.setup.funding_outpoint) || matches!(self.cfg.scen, Scen::Unilateral | Scen::Swept | Scen::HtlcsSwept) {
+                if !funded || spent(&f.setup.funding_outpoint) || matches!(self.cfg.scen, Scen::Unilateral | Scen::Swept | Scen::HtlcsSwept | Scen::TwoParts) {
                     return None;
                 }
                 let mut tx = simple_tx(vec![f.setup.funding_outpoint], vec![(f.c0.to_holder - 500, unrelated_script(2))], 0);
@@ -173,7 +177,7 @@ impl NodeModel {
                 Some(tx)
             }
             Tx::Sweep | Tx::H1 => {
-                if !matches!(self.cfg.scen, Scen::Unilateral | Scen::Swept | Scen::HtlcsSwept) {
+                if !matches!(self.cfg.scen, Scen::Unilateral | Scen::Swept | Scen::HtlcsSwept | Scen::TwoParts) {
                     return None;
                 }
                 let hc = if self.cfg.cp_close { f.cc1.clone()? } else { f.hc1.clone()? };
@@ -223,7 +227,10 @@ impl NodeModel {
         }
         let ds = s.depth(Tx::DoubleSpend) >= 100 && s.conf_height(Tx::Fund).is_none();
         let mutual = s.depth(Tx::Mutual) >= 100;
-        let uni = if matches!(self.cfg.scen, Scen::Unilateral | Scen::Swept | Scen::HtlcsSwept) {
+        let uni = if self.cfg.scen == Scen::TwoParts {
+            // the second part of the offered payment is never swept in this scenario
+            false
+        } else if matches!(self.cfg.scen, Scen::Unilateral | Scen::Swept | Scen::HtlcsSwept) {
             // all of the node's outputs swept: our output, both HTLC outputs and the second level
             let last = [Tx::Sweep, Tx::H1, Tx::H2].iter().map(|t| s.conf_height(*t)).collect::<Vec<_>>();
             if last.iter().all(|h| h.is_some()) {
@@ -312,9 +319,9 @@ impl Model for NodeModel {
             }
             s.f = Some(f);
         }
-        if matches!(self.cfg.scen, Scen::Unilateral | Scen::Swept | Scen::HtlcsSwept) {
+        if matches!(self.cfg.scen, Scen::Unilateral | Scen::Swept | Scen::HtlcsSwept | Scen::TwoParts) {
             // channel 1 funded, advanced, funding and the holder commitment confirmed
-            let f = fund_channel(s.w(), 1, self.cfg.anchors, true);
+            let f = if self.cfg.scen == Scen::TwoParts { fund_channel_with(s.w(), 1, self.cfg.anchors, true, content1_two_parts()) } else { fund_channel(s.w(), 1, self.cfg.anchors, true) };
             s.ghost.ready.insert(1, true);
             let mut chain = chain;
             let b = make_block(&chain.tip().0, chain.height() + 1, 0, vec![f.funding_tx.clone()]);
@@ -329,8 +336,8 @@ impl Model for NodeModel {
             assert!(s.w().connect(&mut chain, b, Delivery::Compact).is_ok());
             s.chain = SimChain::new(chain.tip(), chain.height());
             s.f = Some(f);
-            if matches!(self.cfg.scen, Scen::Swept | Scen::HtlcsSwept) {
-                let pre: &[Tx] = if self.cfg.scen == Scen::Swept { &[Tx::Sweep, Tx::H1, Tx::H2] } else { &[Tx::H1, Tx::H2] };
+            if matches!(self.cfg.scen, Scen::Swept | Scen::HtlcsSwept | Scen::TwoParts) {
+                let pre: &[Tx] = if self.cfg.scen == Scen::HtlcsSwept { &[Tx::H1, Tx::H2] } else { &[Tx::Sweep, Tx::H1, Tx::H2] };
                 for (i, t) in pre.iter().enumerate() {
                     let r = self.connect_block(&mut s, &[*t], 40 + i as u32);
                     assert!(r.is_ok(), "scenario block {:?}: {}", t, r.tag());
@@ -403,7 +410,7 @@ impl Model for NodeModel {
                 v.push(Op::Forget(1));
                 v.push(Op::New(1));
             }
-            Scen::Unilateral | Scen::Swept | Scen::HtlcsSwept => {
+            Scen::Unilateral | Scen::Swept | Scen::HtlcsSwept | Scen::TwoParts => {
                 v.push(Op::Forget(1));
                 v.push(Op::New(1));
                 for t in [Tx::Sweep, Tx::H1, Tx::H2] {
@@ -620,6 +627,7 @@ fn configs_plain(tier: Tier, monitors: bool) -> Vec<NodeCfg> {
             NodeCfg { scen: Scen::Lifecycle, max_ops: 4, monitors, cloud: false, perm: false, anchors: false, cp_close: false },
             NodeCfg { scen: Scen::Ids, max_ops: 6, monitors, cloud: false, perm: false, anchors: false, cp_close: false },
             NodeCfg { scen: Scen::HtlcsSwept, max_ops: 4, monitors, cloud: false, perm: false, anchors: true, cp_close: true },
+            NodeCfg { scen: Scen::TwoParts, max_ops: 4, monitors, cloud: false, perm: false, anchors: false, cp_close: false },
             NodeCfg { scen: Scen::Swept, max_ops: 5, monitors, cloud: false, perm: false, anchors: false, cp_close: false },
         ],
         (Tier::Quick, true) => vec![
@@ -640,6 +648,8 @@ fn configs_plain(tier: Tier, monitors: bool) -> Vec<NodeCfg> {
             NodeCfg { scen: Scen::HtlcsSwept, max_ops: 5, monitors, cloud: false, perm: false, anchors: false, cp_close: false },
             NodeCfg { scen: Scen::Swept, max_ops: 5, monitors, cloud: false, perm: false, anchors: true, cp_close: false },
             NodeCfg { scen: Scen::Swept, max_ops: 5, monitors, cloud: false, perm: false, anchors: false, cp_close: true },
+            NodeCfg { scen: Scen::TwoParts, max_ops: 5, monitors, cloud: false, perm: false, anchors: false, cp_close: false },
+            NodeCfg { scen: Scen::TwoParts, max_ops: 5, monitors, cloud: false, perm: false, anchors: true, cp_close: true },
         ],
     }
 }
